@@ -14,6 +14,7 @@
    Numbers are exact rationals; decimal literals of the source are the exact values of the doubles.
    No lemmas in this file. *)
 From V Require Export Common.Num.
+From Coq Require Export Qround.
 
 (* ---------- literals of the source, as the doubles they denote ---------- *)
 Definition c1em32 : Q := 7307508186654515 # 730750818665451459101842416358141509827966271488.
@@ -42,14 +43,18 @@ Definition count_true (l : list bool) : nat := length (filter (fun b => b) l).
 
 (* ---------- oracles ---------- *)
 Definition resid := vec -> Q -> res (Q * vec).   (* buffer -> point -> (residual, new buffer) *)
-Inductive sres := SOk (root : Q) (buf : vec) | SRuntime (buf : vec) | SErr (e : err).
+(* SErr e buf: the solver (or the residual it called) raised e; buf is the buffer at that moment *)
+Inductive sres := SOk (root : Q) (buf : vec) | SErr (e : err) (buf : vec).
+(* InfeasibleRegion is a subclass of RuntimeError, so `except RuntimeError` catches both *)
+Definition is_runtime (e : err) : bool :=
+  match e with ERuntime | EInfeasible => true | _ => false end.
 Record solvers := mksolvers {
   secant : resid -> vec -> Q -> Q -> sres;                          (* flx.aitken_secant f x0 x1 *)
   iq : resid -> vec -> Q -> Q -> Q -> Q -> option Q -> sres;        (* flx.IQ_interpolation f x0 x1 y0 y1 x *)
   weg : (vec -> vec) -> vec -> vec                                  (* flx.wegstein f x *)
 }.
 Definition sres_res (r : sres) : res (Q * vec) :=
-  match r with SOk x b => Ok (x, b) | SRuntime _ => Err ERuntime | SErr e => Err e end.
+  match r with SOk x b => Ok (x, b) | SErr e _ => Err e end.
 
 (* ---------- chemicals and Chemical.Tsat ---------- *)
 Record chem := mkchem {
@@ -181,8 +186,8 @@ Definition Ty_ideal (k : pkg) (S : solvers) (z_over_P : vec) : res (Q * vec) :=
 Definition secant_or_iq (S : solvers) (f : resid) (buf : vec) (x0 x1 lo hi : Q) : res (Q * vec) :=
   match secant S f buf x0 x1 with
   | SOk x b => Ok (x, b)
-  | SErr e => Err e
-  | SRuntime b =>
+  | SErr e b =>
+    if negb (is_runtime e) then Err e else
     do a <- f b lo;
     do c <- f (snd a) hi;
     sres_res (iq S f (snd c) lo hi (fst a) (fst c) (Some x0))
@@ -196,7 +201,7 @@ Definition single_P (c : chem) (T : Q) : Q :=
 
 (* how solve_Ty prepares its composition arguments: (z_over_P, z_norm) *)
 Definition znorm (z : vec) : vec := vdivs z (qsum z).
-Definition Ty_prep (z : vec) (P : Q) : vec * vec := (vdivs z P, znorm z).
+Definition Ty_prep (z : vec) (P : Q) : vec * vec := (vdivs (znorm z) P, znorm z).
 
 Definition solve_Ty (k : pkg) (S : solvers) (z : vec) (P : Q) : res (Q * vec) :=
   let pos := positives z in
@@ -313,8 +318,9 @@ Definition Tx_ideal (k : pkg) (S : solvers) (zP : vec) : res (Q * vec) :=
   sres_res (iq S f (snd b) Tlo Thi (fst a) (fst b) None).
 
 (* (z_norm, zP) of solve_Tx and (z_norm, z_over_Psats) of solve_Px *)
-Definition Tx_prep (z : vec) (P : Q) : vec * vec := (znorm z, map (fun a => a * P) z).
-Definition Px_prep (k : pkg) (z : vec) (T : Q) : vec * vec := (znorm z, map2 Qdiv z (psats_at k T)).
+Definition Tx_prep (z : vec) (P : Q) : vec * vec := (znorm z, map (fun a => a * P) (znorm z)).
+Definition Px_prep (k : pkg) (z : vec) (T : Q) : vec * vec :=
+  (znorm z, map2 Qdiv (znorm z) (psats_at k T)).
 
 Definition solve_Tx (k : pkg) (S : solvers) (z : vec) (P : Q) : res (Q * vec) :=
   let pos := positives z in
@@ -364,62 +370,66 @@ Definition solve_Px (k : pkg) (S : solvers) (z : vec) (T : Q) : res (Q * vec) :=
 Definition dew_call k S := point_call (solve_Tx k S) (solve_Px k S).
 
 (* ---------- oracle stand-ins used by the correspondence cases (mirrored in props/C08.py) ---------- *)
+(* stand-ins round their results to 2^-64 (the implementation rounds to 53 bits; compared at 1e-9):
+   keeps the exact rationals of long evaluation chains small *)
+Definition qrnd (x : Q) : Q := Qred (Qmake (Qfloor (x * 18446744073709551616)) 18446744073709551616).
+
 Inductive skind := KTable (root last : Q) | KNewton | KEcho | KRaise.
 
 Definition stub_secant (kd : skind) : resid -> vec -> Q -> Q -> sres :=
   fun f buf x0 x1 =>
   match kd with
-  | KTable r l => match f buf l with Ok a => SOk r (snd a) | Err e => SErr e end
+  | KTable r l => match f buf l with Ok a => SOk r (snd a) | Err e => SErr e buf end
   | KNewton =>
     match f buf x0 with
-    | Err e => SErr e
+    | Err e => SErr e buf
     | Ok a0 =>
       match f (snd a0) (x0 + 16) with
-      | Err e => SErr e
+      | Err e => SErr e (snd a0)
       | Ok a1 =>
         if qeqb (fst a1) (fst a0) then SOk x0 (snd a1) else
-        let x := x0 - fst a0 * 16 / (fst a1 - fst a0) in
-        match f (snd a1) x with Ok a => SOk x (snd a) | Err e => SErr e end
+        let x := qrnd (x0 - fst a0 * 16 / (fst a1 - fst a0)) in
+        match f (snd a1) x with Ok a => SOk x (snd a) | Err e => SErr e (snd a1) end
       end
     end
   | KEcho =>
     match f buf (x0 + 4) with
-    | Ok a => SOk (x0 + (x1 - x0) * 1024 + fst a * 64) (snd a)
-    | Err e => SErr e
+    | Ok a => SOk (qrnd (x0 + (x1 - x0) * 1024 + fst a * 64)) (snd a)
+    | Err e => SErr e buf
     end
-  | KRaise => SRuntime buf
+  | KRaise => SErr ERuntime buf
   end.
 
 Definition stub_iq (kd : skind) : resid -> vec -> Q -> Q -> Q -> Q -> option Q -> sres :=
   fun f buf x0 x1 y0 y1 g =>
   match kd with
-  | KTable r l => match f buf l with Ok a => SOk r (snd a) | Err e => SErr e end
+  | KTable r l => match f buf l with Ok a => SOk r (snd a) | Err e => SErr e buf end
   | KNewton =>
     if qeqb y1 y0 then SOk x0 buf else
-    let x := x0 - y0 * (x1 - x0) / (y1 - y0) in
-    match f buf x with Ok a => SOk x (snd a) | Err e => SErr e end
+    let x := qrnd (x0 - y0 * (x1 - x0) / (y1 - y0)) in
+    match f buf x with Ok a => SOk x (snd a) | Err e => SErr e buf end
   | KEcho =>
     let m := (x0 + x1) / 2 in
     match f buf m with
-    | Ok a => SOk (m + y0 * 8 + y1 * 16 + (match g with Some v => v | None => 0 end) + fst a * 64) (snd a)
-    | Err e => SErr e
+    | Ok a => SOk (qrnd (m + y0 * 8 + y1 * 16 + (match g with Some v => v | None => 0 end) + fst a * 64)) (snd a)
+    | Err e => SErr e buf
     end
-  | KRaise => SRuntime buf
+  | KRaise => SErr ERuntime buf
   end.
 
-Definition stub_weg (n : nat) : (vec -> vec) -> vec -> vec := fun f x => Nat.iter n f x.
+Definition stub_weg (n : nat) : (vec -> vec) -> vec -> vec := fun f x => Nat.iter n (fun v => map qrnd (f v)) x.
 
 Definition stub_solvers (ks ki : skind) (n : nat) : solvers :=
   mksolvers (stub_secant ks) (stub_iq ki) (stub_weg n).
 
 (* stand-in property functions: quadratic Psat, polynomial gamma / phi / pcf *)
-Definition quad (c0 c1 c2 : Q) : Q -> Q := fun T => c0 + c1 * T + c2 * T * T.
+Definition quad (c0 c1 c2 : Q) : Q -> Q := fun T => qrnd (c0 + c1 * T + c2 * T * T).
 Definition stub_gam (a : vec) : vec -> Q -> vec :=
-  fun x T => map2 (fun ai xi => 1 + ai * (1 - xi) * (1 - xi) * 256 / T) a x.
+  fun x T => map2 (fun ai xi => qrnd (1 + ai * (1 - xi) * (1 - xi) * 256 / T)) a x.
 Definition stub_phi (c : vec) : vec -> Q -> Q -> vec :=
-  fun y T P => map2 (fun ci yi => 1 + ci * yi * P / 1048576) c y.
+  fun y T P => map2 (fun ci yi => qrnd (1 + ci * yi * P / 1048576)) c y.
 Definition stub_pcf (d : vec) : Q -> Q -> vec -> vec :=
-  fun T P Ps => map2 (fun di ps => 1 + di * (P - ps) / 4194304) d Ps.
+  fun T P Ps => map2 (fun di ps => qrnd (1 + di * (P - ps) / 4194304)) d Ps.
 Definition ideal_gam (n : nat) : vec -> Q -> vec := fun _ _ => vones n.
 Definition ideal_phi (n : nat) : vec -> Q -> Q -> vec := fun _ _ _ => vones n.
 Definition mock_pcf (n : nat) : Q -> Q -> vec -> vec := fun _ _ _ => vones n.
